@@ -14,7 +14,7 @@ CASE_TIMEOUT = 400
 NPROC = 16
 RULE = ('each case = one homogeneous sphere: log-uniform R 1e5..1e8 m, rho 500..1.5e4, |mu| 1e6..1e12 Pa with loss angle 0..60 deg, l 2..10, '
         'integrator in {RK23,RK45,DOP853}, family in {Takeuchi,Kamata}, static/dynamic, incompressible set or compressible set with '
-        'K = 1e4..1e8 max(|mu|, rho g R), both nondimensionalize values, rtol in {1e-6,1e-8,1e-10}, 25..400 slices; solved at rtol, rtol/100 and '
+        'K = 1e4..1e8 max(|mu|, rho g R), both nondimensionalize values, the tidal numbers requested alone or in any slot next to loading / free solutions, rtol in {1e-6,1e-8,1e-10}, 25..400 slices; solved at rtol, rtol/100 and '
         'rtol/100 with another integrator; non-trivial (decisive) = all three solves succeeded and delta_conv <= 1e3 rtol; distinct by input hash')
 ASSUMPTIONS = ['budget |dL| <= 200 rtol + 10 delta_conv + 5 eps_dyn + 20 max(|mu|, rho g R)/K on the O(1) scale of k, h, l (eps_dyn = w^2/(pi G rho))',
                'unsupported combinations raising NotImplementedError are legitimate outcomes (not decisive)', 'max_num_steps = 2e5; RK23 is asked for rtol 1e-5/1e-6, RK45 for 1e-6..1e-8, DOP853 for 1e-6..1e-10; the cross-integrator probe uses DOP853 (RK45 for DOP853 cases)']
@@ -40,7 +40,7 @@ def gen_cases(tier, seed):
                       # low-order integrators are not asked for tolerances they cannot reach within the step budget
                       'rtol': float(10.0 ** rng.choice({0: [-5, -6], 1: [-6, -7, -8], 2: [-6, -8, -10]}[i % 3])),
                       'N': int(rng.choice([25, 50, 100, 200, 400])), 'Kfac': 10 ** rng.uniform(4, 8), 'eps_dyn': eps,
-                      'r0f': 1e-3 if l <= 5 else 10 ** rng.uniform(-3, -1.5)})
+                      'r0f': 1e-3 if l <= 5 else 10 ** rng.uniform(-3, -1.5), 'sub': i // 6})
     return cases
 
 
@@ -60,9 +60,16 @@ def eval_case(c):
     cnt = {'solves': 0, 'decisive_comparisons': 0}
     other = 'DOP853' if c['method'] != 'DOP853' else 'RK45'
 
+    # the tidal numbers are requested alone or next to other solution types (their slot must not matter)
+    sf = [('tidal',), ('tidal',), ('tidal', 'loading'), ('loading', 'tidal'), ('free', 'loading', 'tidal')][c.get('sub', 0) % 5]
+    slot = sf.index('tidal')
+
     def run(rt, meth):
         cnt['solves'] += 1
-        return solve(body, w, l=l, kamata=kam, method=meth, rtol=rt, nondim=c['nd'], max_steps=200000)
+        r_ = solve(body, w, l=l, solve_for=sf, kamata=kam, method=meth, rtol=rt, nondim=c['nd'], max_steps=200000)
+        if r_['success'] and slot:
+            r_['love'] = r_['love'][[slot] + [i_ for i_ in range(len(sf)) if i_ != slot]]
+        return r_
     s1 = run(c['rtol'], c['method'])
     if not s1['success']:
         return {'status': 'inconclusive', 'nontrivial': False, 'violations': [], 'obs': {'note': ('exception ' + s1['exc'] if s1['exc'] else 'solver failure: ' + s1['message'][:60])}, 'counters': cnt}
@@ -77,7 +84,7 @@ def eval_case(c):
     eps_dyn = 0.0 if static else c['eps_dyn']
     comp = 0.0 if incomp else max(c['mag'], rho * g0 * R) / K
     budget = 200 * c['rtol'] + 10 * dconv + 5 * eps_dyn + 20 * comp
-    obs = {'fam': fam, 'l': l, 'method': c['method'], 'rtol': c['rtol'], 'k_solver': complex(L[0]), 'k_closed': complex(ex[0]), 'err': err, 'delta_conv': dconv, 'budget': budget, 'eps_dyn': eps_dyn}
+    obs = {'fam': fam, 'l': l, 'solve_for': list(sf), 'method': c['method'], 'rtol': c['rtol'], 'k_solver': complex(L[0]), 'k_closed': complex(ex[0]), 'err': err, 'delta_conv': dconv, 'budget': budget, 'eps_dyn': eps_dyn}
     viol = []
     # mechanism classifier for the known degeneracy (needed whether or not the probe flags the case as unconverged)
     degenerate = False
